@@ -1,4 +1,5 @@
 import Verif.Proofs.NumRoundLen
+import Verif.Proofs.NumHolds
 /-!
 # C08 — Number/Decimal shortening keeps the numeric value
 
@@ -7,7 +8,7 @@ Property theorems only.  Models: `Verif.Model.Num.number`, `Verif.Model.Num.deci
 -/
 namespace Verif.Props.C08
 open Verif.Model.Num Verif.Proofs.Num
-open Verif.Spec.Num (isNumber isDecimal numVal trigExpNear)
+open Verif.Spec.Num (isNumber isDecimal numVal trigExpNear holds)
 
 /-- (a) at precision ≤ 0 the result of `Number` is never longer than its input — for every byte string -/
 theorem number_length_exact (s : List Char) (p : Int) (hp : p ≤ 0) : (number s p).length ≤ s.length :=
@@ -101,5 +102,17 @@ theorem decimal_grammar (s : List Char) (p : Int) (hs : isDecimal s = true) :
 
 example : isDecimal "-0099.9500".toList = true := by decide
 example : decimal "99.5".toList 2 = "100".toList ∧ decimal "999.5".toList 3 = "1000".toList := by decide
+
+
+/-- the executable checker `spec.holds.c08` that the harness evaluates on the *implementation's* output is
+    sound for the rational-number reading at precision ≤ 0: when it answers `true`, the output is in the
+    grammar, denotes the same rational as the input and is not longer -/
+theorem holds_sound (decimalMode : Bool) (s : List Char) (p : Int) (out : List Char)
+    (h : holds decimalMode s p out = true) (hp : p ≤ 0) :
+    (if decimalMode then isDecimal out else isNumber out) = true ∧ numVal out = numVal s ∧
+      out.length ≤ s.length :=
+  holds_exact_sound decimalMode s p out h hp
+
+example : holds false "+012.500e-3".toList 0 ".0125".toList = true := by decide
 
 end Verif.Props.C08
